@@ -15,5 +15,27 @@ for d in sorted(glob.glob(os.path.join(V, "seeded", "*", "meta.json"))):
 txt = open(os.path.join(V, "DESIGN.md")).read()
 block = "<!-- BEGIN SEEDED TABLE -->\n" + "\n".join(rows) + "\n<!-- END SEEDED TABLE -->"
 txt = re.sub(r"<!-- BEGIN SEEDED TABLE -->.*?<!-- END SEEDED TABLE -->", lambda _: block, txt, flags=re.S)
+# ---- harness inventory (as built)
+import sys, importlib
+sys.path[:0] = [os.path.join(V, "lib"), os.path.join(V, "mirsym"), V]
+import props
+inv = ["| property | harness | engine | tier | bounds |", "|---|---|---|---|---|"]
+claimed = [c["property_id"] for c in json.load(open(os.path.join(V, "MANIFEST.json")))["checks"]]
+nk = nm = 0
+for pid in claimed:
+    for h in props.k_harnesses(pid, "thorough"):
+        d = props.K[h]
+        inv.append("| %s | %s | K | %s | %s |" % (pid, h, d["tier"], d["bounds"].replace("|", "/")))
+        nk += 1
+    try:
+        mod = importlib.import_module("harness.%s" % pid.lower())
+    except ModuleNotFoundError:
+        continue
+    for h in mod.HARNESSES:
+        inv.append("| %s | %s | M | %s | %s |" % (pid, h["name"], h.get("tier", "quick"), h["bounds"].replace("|", "/")[:260]))
+        nm += 1
+block2 = "<!-- BEGIN HARNESS TABLE -->\n" + "\n".join(inv) + "\n<!-- END HARNESS TABLE -->"
+if "<!-- BEGIN HARNESS TABLE -->" in txt:
+    txt = re.sub(r"<!-- BEGIN HARNESS TABLE -->.*?<!-- END HARNESS TABLE -->", lambda _: block2, txt, flags=re.S)
 open(os.path.join(V, "DESIGN.md"), "w").write(txt)
-print(len(rows) - 2, "seeded rows")
+print(len(rows) - 2, "seeded rows;", nk, "K harness rows,", nm, "M harness rows")
